@@ -249,6 +249,7 @@ pub fn run_c02(tier: Tier) -> i32 {
             let mut z = cfg_liq(false, false, 250_000);
             z.liq_fee = 0;
             exps.push(Exp::new("zero liquidation fee", z, liq_alpha(false), liq_seeds(), 3));
+            exps.push(Exp::new("partial-liquidation band", cfg_liq(true, true, D), liq_alpha(false), liq_seeds(), 3));
         }
         Tier::Thorough => {
             for cw20 in [true, false] {
@@ -307,6 +308,7 @@ pub fn run_c03(tier: Tier) -> i32 {
             exps.push(Exp::new("base", cfg_with(false, true, 250_000), alpha.clone(), std_seeds(&tier), 4));
             exps.push(Exp::new("liquidation band", cfg_liq(true, true, 250_000), liq_alpha(false), liq_seeds(), 3));
             exps.push(Exp::new("liquidation band", cfg_liq(false, false, 0), liq_alpha(false), liq_seeds(), 3));
+            exps.push(Exp::new("liquidation band", cfg_liq(true, true, D), liq_alpha(false), liq_seeds(), 3));
         }
         Tier::Thorough => {
             for cw20 in [true, false] {
@@ -315,6 +317,7 @@ pub fn run_c03(tier: Tier) -> i32 {
                         exps.push(Exp::new("base", cfg_with(cw20, fees, plr), alpha.clone(), std_seeds(&tier), 4));
                         exps.push(Exp::new("liquidation band", cfg_liq(cw20, fees, plr), liq_alpha(false), liq_seeds(), 4));
                     }
+                    exps.push(Exp::new("liquidation band", cfg_liq(cw20, fees, D), liq_alpha(false), liq_seeds(), 3));
                 }
             }
         }
@@ -439,7 +442,8 @@ pub fn run_c04(tier: Tier) -> i32 {
             exps.push(Exp::new("base", cfg_with(false, false, 0), alpha.clone(), seeds.clone(), 3));
             let mut c = cfg_with(true, true, 250_000);
             c.fluct = 50_000;
-            exps.push(Exp::new("partial-close", c, alpha.clone(), seeds.clone(), 3));
+            c.imr = 100_000;
+            exps.push(Exp { setup: None, name: "partial-close".into(), cfg: c, traders: T2.to_vec(), seeds: vec![vec![]], alpha: Alpha::Dyn(alpha_c15), depth: 5, init_mon: Value::Null });
         }
         Tier::Thorough => {
             for cw20 in [true, false] {
@@ -447,10 +451,13 @@ pub fn run_c04(tier: Tier) -> i32 {
                     exps.push(Exp::new("base", cfg_with(cw20, fees, 0), alpha.clone(), seeds.clone(), 4));
                 }
             }
-            // partial-close path: fluctuation limit on, partial ratio 25%
-            let mut c = cfg_with(true, true, 250_000);
-            c.fluct = 50_000;
-            exps.push(Exp::new("partial-close", c, alpha.clone(), seeds.clone(), 4));
+            // partial-close path: fluctuation limit on, partial ratio 25%, trades sized around the band edge
+            for cw20 in [true, false] {
+                let mut c = cfg_with(cw20, true, 250_000);
+                c.fluct = 50_000;
+                c.imr = 100_000;
+                exps.push(Exp { setup: None, name: "partial-close".into(), cfg: c, traders: T2.to_vec(), seeds: vec![vec![]], alpha: Alpha::Dyn(alpha_c15), depth: 6, init_mon: Value::Null });
+            }
         }
     }
     run_exps(&mut run, step_c04, exps, |_| {});
@@ -597,6 +604,19 @@ fn seed_band_liquidatable() -> Vec<Act> {
     ]
 }
 
+/// alice long 25x10 owes more funding than her margin (four settlements against an oracle at 1.0) and
+/// is in profit on price after bob's buy: under-margined only because of funding
+fn seed_funding_exceeds_margin() -> Vec<Act> {
+    let mut v = vec![Act::open("alice", true, 25 * D, 10 * D), Act::Px { price: D }];
+    for _ in 0..4 {
+        v.push(Act::blk(3900));
+        v.push(Act::fund());
+    }
+    v.push(Act::open("bob", true, 60 * D, 1 * D));
+    v.push(Act::blk(1200));
+    v
+}
+
 fn liq_seeds() -> Vec<Vec<Act>> {
     vec![
         vec![],
@@ -711,6 +731,7 @@ pub fn run_c07(tier: Tier) -> i32 {
         c
     };
     let mut seeds = liq_seeds();
+    seeds.push(seed_funding_exceeds_margin());
     seeds.push(seed_same_block_cascade());
     seeds.push(seed_vault_drained());
     seeds.push(vec![Act::blk(15), Act::open("alice", true, SIZE_L.0, SIZE_L.1), Act::open("bob", true, SIZE_L.0, SIZE_L.1)]);
@@ -721,6 +742,7 @@ pub fn run_c07(tier: Tier) -> i32 {
             exps.push(Exp::new("liveness", mk(true, 0, false), alpha.clone(), seeds.clone(), 3));
             exps.push(Exp::new("liveness", mk(false, 250_000, false), alpha.clone(), seeds.clone(), 3));
             exps.push(Exp::new("liveness", mk(true, 0, true), alpha.clone(), seeds.clone(), 2));
+            exps.push(Exp::new("liveness in the liquidation band", cfg_liq(true, false, 250_000), alpha.clone(), seeds.clone(), 3));
             let mut cb = mk(true, 0, false);
             cb.fluct = 50_000;
             let mut band_alpha = alpha.clone();
@@ -739,6 +761,11 @@ pub fn run_c07(tier: Tier) -> i32 {
             }
             exps.push(Exp::new("liveness", mk(true, 0, true), alpha.clone(), seeds.clone(), 3));
             exps.push(Exp::new("liveness", mk(true, 250_000, true), alpha.clone(), seeds.clone(), 3));
+            for cw20 in [true, false] {
+                for plr in [250_000, D] {
+                    exps.push(Exp::new("liveness in the liquidation band", cfg_liq(cw20, false, plr), alpha.clone(), seeds.clone(), 3));
+                }
+            }
             for cw20 in [true, false] {
                 let mut cb = mk(cw20, 0, false);
                 cb.fluct = 50_000;
